@@ -104,7 +104,7 @@ def encodeResourceContents : ResourceContents → Json
 def tagText : Text := t!"text"
 def tagImage : Text := t!"image"
 def tagAudio : Text := t!"audio"
-def tagEmbedded : Text := t!"embedded_resource"
+def tagEmbedded : Text := t!"resource"
 
 def encodeContent : Content → Json
   | .text s a => .obj ([(t!"type", .str tagText), (t!"text", .str s)] ++ annField a)
@@ -249,7 +249,7 @@ def parseAnnotated (m : Obj) : Option Annotations :=
 
 /-- mcp_tools.go `parseContent` with `parseTextContent`, `parseImageContent`, `parseAudioContent`,
     `parseResourceContent`: required fields must be present strings (empty allowed); embedded resources are taken under
-    both tags, `"resource"` (MCP schema) and `"embedded_resource"` (what `NewEmbeddedResource` writes). -/
+    both tags, `"resource"` (MCP schema, what `NewEmbeddedResource` writes) and the legacy `"embedded_resource"`. -/
 def parseContent (m : Obj) : Except Err Content :=
   let ty := extractString m t!"type"
   if ty = t!"text" then
@@ -264,7 +264,7 @@ def parseContent (m : Obj) : Except Err Content :=
     match lookupStr? m t!"data", lookupStr? m t!"mimeType" with
     | some data, some mime => .ok (.audio data mime (parseAnnotated m))
     | _, _ => .error .audioMissing
-  else if ty = t!"resource" ∨ ty = tagEmbedded then
+  else if ty = tagEmbedded ∨ ty = t!"embedded_resource" then
     match extractMap m t!"resource" with
     | none => .error .resourceMissing
     | some rm =>
